@@ -105,6 +105,19 @@ def lib():
             __import__(opt)
         except Exception:  # noqa
             pass
+    # every other module the package ships, up front: a module the library
+    # imports lazily (inside a function, on first use) would otherwise execute
+    # its body inside the first simulated call of the process only - holding the
+    # interpreter's real import lock while pre-empted - and never again
+    import pkgutil
+    for info in sorted(pkgutil.walk_packages(pw.__path__, "pytorch_wavelets."),
+                       key=lambda i: i.name):
+        if info.name in sys.modules or info.name.rsplit(".", 1)[-1] in ("__main__", "setup"):
+            continue
+        try:
+            __import__(info.name)
+        except BaseException:  # noqa
+            sys.modules.pop(info.name, None)
 
     class NS:
         pass
